@@ -146,7 +146,7 @@ class Ctx:
         if rc != 0:
             raise RuntimeError(f"harness {sub} failed rc={rc}: {tail(out, 20)}")
         cases, metas = [], []
-        with open(path, encoding="utf-8", errors="surrogateescape") as f:
+        with open(path, encoding="utf-8", errors="surrogateescape", newline="\n") as f:
             for line in f:
                 line = line.rstrip("\n")
                 if line.startswith("#"):
